@@ -256,25 +256,63 @@ def residOuter (v p : List α) : α :=
   let diff := List.zipWith (fun x y => x - y) p pp
   Np.dot diff diff
 
-/-- `trans_ndpt_pseudo_dist(ndptmat, objfn_minmax, objfn_pseudoweight)`; the three `assert`s reject
-    (`none`) a preference vector with a negative entry or without a positive one -/
-def transDistCore (ndptmat : List (List α)) (minmax pw : List α) : Option (List α) :=
+/-! #### the transcriptions BEFORE the repair of D190 (c276d45e): `1/(L·L)` formed on the vector as given.  Equal to
+the repaired ones in exact arithmetic (`Props/C19.dist_repair_D190_exact`), wrong / non-finite in binary64 when `L·L`
+over- or underflows (`Props/C19.dist_extreme_preference_float_prerepair_counterexample`). -/
+
+def transDistCorePrerepair (ndptmat : List (List α)) (minmax pw : List α) : Option (List α) :=
   if pw.any (fun x => decide (x < 0)) then none else
   if !(pw.any (fun x => decide (0 < x))) then none else
   if !(decide (0 < Np.dot pw pw)) then none else
   let m := scaleColsLit (ndptmat.map (fun r => List.zipWith (· * ·) r minmax))
   some (m.map (residCore pw))
 
+def transDistProbPrerepair (mat : List (List α)) (obj_wt vec_wt : List α) : Option (List α) :=
+  if Np.dot obj_wt obj_wt == 0 then none else
+  let m := scaleColsLit (mat.map (fun r => List.zipWith (· * ·) r vec_wt))
+  some (m.map (residOuter obj_wt))
+
+def transDistFnPrerepair (mat : List (List α)) (objfn_wt wt : List α) : Option (List α) :=
+  if Np.dot objfn_wt objfn_wt == 0 then none else
+  let m := scaleColsLit (mat.map (fun r => List.zipWith (· * ·) r wt))
+  some (m.map (residOuter objfn_wt))
+
+/-! #### the three functions as they are now (since c276d45e): the preference vector is divided by its largest
+entry / magnitude first, so that `v·v` lies in `[1, nobj]` -/
+
+/-- `v / numpy.abs(v).max()` (sel/prob/trans.py, sel/transfn.py); `0/0 = NaN` for the zero vector: every entry `0`
+    here (`x / 0 = 0` at `Rat`), which the callers below turn into `none` -/
+def normLine (line : List α) : List α :=
+  let m := colMax (line.map absv)
+  line.map (fun y => y / m)
+
+/-- `v / v.max()` (core/util/trans.py, after the two sign `assert`s) -/
+def normLineMax (line : List α) : List α :=
+  let m := colMax line
+  line.map (fun y => y / m)
+
+/-- `trans_ndpt_pseudo_dist(ndptmat, objfn_minmax, objfn_pseudoweight)`: two `assert`s on the vector as given
+    (no negative entry, a positive one), normalisation, third `assert` (`L·L > 0`) on the normalised vector -/
+def transDistCore (ndptmat : List (List α)) (minmax pw : List α) : Option (List α) :=
+  if pw.any (fun x => decide (x < 0)) then none else
+  if !(pw.any (fun x => decide (0 < x))) then none else
+  let pw := normLineMax pw
+  if !(decide (0 < Np.dot pw pw)) then none else
+  let m := scaleColsLit (ndptmat.map (fun r => List.zipWith (· * ·) r minmax))
+  some (m.map (residCore pw))
+
 /-- `sel/prob/trans.py:trans_ndpt_to_vec_dist(mat, obj_wt, vec_wt)` — `vec_wt` multiplies the front,
-    `obj_wt` is the vector projected on; `1/0 = inf`, `inf * 0 = NaN` ⇒ `none` for a zero vector -/
+    `obj_wt` (normalised first) is the vector projected on; NaN ⇒ `none` for a zero vector -/
 def transDistProb (mat : List (List α)) (obj_wt vec_wt : List α) : Option (List α) :=
+  let obj_wt := normLine obj_wt
   if Np.dot obj_wt obj_wt == 0 then none else
   let m := scaleColsLit (mat.map (fun r => List.zipWith (· * ·) r vec_wt))
   some (m.map (residOuter obj_wt))
 
 /-- `sel/transfn.py:trans_ndpt_to_vec_dist(mat, objfn_wt, wt)` — `wt` multiplies the front,
-    `objfn_wt` is the vector projected on -/
+    `objfn_wt` (normalised first) is the vector projected on -/
 def transDistFn (mat : List (List α)) (objfn_wt wt : List α) : Option (List α) :=
+  let objfn_wt := normLine objfn_wt
   if Np.dot objfn_wt objfn_wt == 0 then none else
   let m := scaleColsLit (mat.map (fun r => List.zipWith (· * ·) r wt))
   some (m.map (residOuter objfn_wt))
@@ -330,6 +368,47 @@ def specDistFast (rel abs_ : α) (mat : List (List α)) (sign line : List α) (d
 
 end fast
 
+/-! ### relational Spec oracles (round 4): "the set of efficient objective vectors is unaffected by the order
+of points", "invariant to translation of the front", "the three copies agree" — evaluated by the driver on the
+implementation's outputs of the two runs; `Props/C19.spec_same_vectors_iff`, `spec_same_vectors_sound`,
+`spec_close_all_iff`, `spec_close_all_refl` -/
+section relspecs
+variable {α : Type} [DecidableEq α]
+
+/-- the two masks mark the same SET of (already weighted) objective vectors -/
+def specSameVectors (rows rows' : List (List α)) (mask mask' : List Bool) : Bool :=
+  let e := Np.compress mask rows
+  let e' := Np.compress mask' rows'
+  e.all (fun v => decide (v ∈ e')) && e'.all (fun v => decide (v ∈ e))
+
+end relspecs
+
+section relclose
+variable {α : Type} [Add α] [Sub α] [Mul α] [OfNat α 0] [LT α] [DecidableLT α] [BEq α]
+
+/-- two claimed result vectors (`none` = NaN / inf) have the same length, are finite and agree entry by entry
+    within the tolerance rule `closeTol` -/
+def specCloseAll (rel abs_ : α) (d d' : List (Option α)) : Bool :=
+  d.length == d'.length &&
+    (List.zip d d').all (fun p => match p.1, p.2 with
+      | some x, some y => closeTol rel abs_ x y
+      | _, _ => false)
+
+end relclose
+
+/-! ### a rewriting of `dominates` that is equivalent over an ordered field and NOT in binary64 (the class of the
+seeded change C19-d2): "once nowhere worse, better somewhere exactly when the total is smaller".
+`Props/C19.dominates_sum_form_exact` / `dominates_sum_form_float_counterexample` -/
+section sumform
+variable {α : Type} [Add α] [LT α] [LE α] [DecidableLT α] [DecidableLE α] [OfNat α 0]
+
+def dominatesSumForm (obj1 : List α) (cv1 : α) (obj2 : List α) (cv2 : α) : Bool :=
+  if cv1 ≤ 0 ∧ cv2 ≤ 0 then
+    (List.zip obj1 obj2).all (fun ab => decide (ab.1 ≤ ab.2)) && decide (Np.sum obj1 < Np.sum obj2)
+  else decide (cv1 < cv2)
+
+end sumform
+
 /-! ### the instances the driver executes: the definitions above at core `Rat`
 
 `Drv/C19.lean` calls these constants; `Props/C19.lean` (section `Q`) shows that the theorems proved
@@ -364,6 +443,9 @@ def transSumAxis0 (mat : List (List Rat)) : List Rat := Pareto.transSumAxis0 mat
 def transSumAll (mat : List (List Rat)) : Rat := Pareto.transSumAll mat
 def latentSum (v : List Rat) : List Rat := Pareto.latentSum v
 def latentDot (v w : List Rat) : List Rat := Pareto.latentDot v w
+def specSameVectors (rows rows' : List (List Rat)) (mask mask' : List Bool) : Bool :=
+  Pareto.specSameVectors rows rows' mask mask'
+def specCloseAll (rel abs_ : Rat) (d d' : List (Option Rat)) : Bool := Pareto.specCloseAll rel abs_ d d'
 end Q
 
 end Pareto
